@@ -250,11 +250,4 @@ def InSync (s : State) : Prop := s.vPods = s.pods ∧ s.vApps = s.apps
 def policyReserves (s : State) (r : Rec) : Prop :=
   docAction (dinOf CRs.none s r.key r.policy) ≠ .release ∨ r.policy = Generated.C03.releasePolicyNever
 
-/-- a reload in the history does not lose a store delete to an injected fault (fault index ≤ 2: config-map read or
-    list) - otherwise the store keeps an object memory has forgotten, which is C05's subject, not C03's -/
-def reloadsClean : List Move → Bool
-  | [] => true
-  | .reload _ fault :: t => decide (fault ≤ 2) && reloadsClean t
-  | _ :: t => reloadsClean t
-
 end Galaxy.Plugin.C03
